@@ -188,14 +188,14 @@ def gen_w_cases(rng, tier):
                 nch = max(1, shape)
                 r = rng.fork(f"w{rep_i}_{c}_{shape}")
                 # wide formats (the float companion cannot hold every sample) get every pattern twice
-                rounds = 2 if c in W_WIDE or c in (4, 10) else 1
+                rounds = 2 if c in W_WIDE else 1
                 for rd in range(rounds):
                     for nm, amp in w_gain_patterns(r, c, nch):
-                        n = r.range(1, 3)
+                        n = r.range(1, 2)
                         items.append(w_item(0, 5, c, shape, w_frames(r, c, nch, n, w_a_val), w_frames(r, sg, nch, n, w_val),
                                             amp, 0, "amp:" + nm))
                     for nm, amp in w_gain_patterns(r, c, 1)[:4] + w_gain_patterns(r, c, 1)[-2:-1]:
-                        n = r.range(1, 3)
+                        n = r.range(1, 2)
                         items.append(w_item(0, 2, c, shape, w_frames(r, c, nch, n, w_a_val), w_frames(r, sg, nch, n, w_val),
                                             amp, 0, "zipscale:" + nm[4:] if nm.startswith("all_") else "zipscale:" + nm))
                 # add_in_place: b boundary-structured; b = 0; a at the range ends (overflow in the checked build)
@@ -687,8 +687,8 @@ def finish(rep, info, n, nontriv, dist, samples, bad=()):
                 "(1, 0, -1, 0.5, -0, 2, 1-ulp, 1+ulp) on ALL channels, special gains mixed per channel, random gains; zip_map_in_place with an "
                 "add_amp(scale_amp(g)) closure for g in 1, 0, -1, 0.5, random; add_in_place (plain, range ends, zero source); write; equilibrium; "
                 "map_in_place with offset_amp(k); one length mismatch}, samples from the boundary-structured set (MIN, MAX, equilibrium +-1, "
-                "+-2^k +-1, values off the float companion's grid, small, uniform), 1..3 frames; each W case in dev vs the Checked model, in release vs the dev "
-                "observation when the dev build did not panic and vs the Wrapping model when it did, and in relchk vs dev (I24/I48 with a dev panic: vs release); the 32/64-bit formats and I48/U48 get every gain pattern twice. "
+                "+-2^k +-1, values off the float companion's grid, small, uniform), 1..2 frames (1..3 for the gain-free operations); each W case in dev vs the Checked model, in release vs the dev "
+                "observation when the dev build did not panic and vs the Wrapping model when it did, and in relchk vs dev (I24/I48 with a dev panic: vs release); the 32/64-bit formats get every gain pattern twice. "
                 "non-trivial = N >= 2 and L not a multiple of N (the divisibility "
                 "test fails), or a store through a mutable view completed, or the two slices of a two-slice operation differ in length, or a W case whose "
                 "operation changed the destination or panicked, or an I case of odd length (the N = 2 boxed conversion fails and frees)",
